@@ -70,13 +70,20 @@ TYPE_CLASSES = {v: getattr(phands, k) for k, v in TYPE_NAMES.items()}
 
 class Shuffles:
     rng = None
+    fixed = None
     last_deck = None
     A = 1
     B = 0
 
 
 def _initial_shuffle(x):
-    if Shuffles.rng is not None:
+    if Shuffles.fixed is not None:
+        # a prescribed deck order (spec -> code replay of TLC behaviours)
+        order = {c: j for j, c in enumerate(Shuffles.fixed)}
+        ordered = sorted(x, key=lambda c: order[card_int(c)])
+        x.clear()
+        x.extend(ordered)
+    elif Shuffles.rng is not None:
         Shuffles.rng.shuffle(x)
     Shuffles.last_deck = [card_int(c) for c in x]
 
